@@ -110,7 +110,17 @@ def run_one(ch, cfg):
         certfile = A.ATT2
         root_hex = dev.issuer.pub65.hex()
     else:
-        w, dev, info = A.sgx_world(ch, extra_cfg={"byzantine": byz})
+        # one genuine run in three has a digest that ends in a zero byte: the one the quote commits to
+        # (over the powHSM message) or the one the QE report commits to (attestation key || auth data)
+        zt = ch.draw(6, "sgx.digest-zero-tail")
+        w, dev, info = A.sgx_world(ch, extra_cfg={"byzantine": byz}, qe_digest_zero_tail=(zt == 2))
+        if zt == 1:
+            import hashlib as _h
+            for n in range(1 << 16):
+                cand = ud[:-2] + n.to_bytes(2, "big")
+                if _h.sha256(dev.powhsm_message(cand)).digest()[-1] == 0:
+                    ud = cand
+                    break
         st, out = A.sgx_attestation(w, dev, ud.hex())
         certfile = A.SGX_ATT
     if st != 0:
